@@ -520,13 +520,15 @@ theorem proj_requireAccepted (w : W) : (proj h binOk w).requireAccepted = w.requ
   rw [e2, e3]
   cases w.st <;> rfl
 
-theorem proj_accept (w : W) (d : Option Int) (hd s b : Bool) :
-    (proj h binOk w).accept d hd s b = (proj h binOk (w.accept d hd s b).1, (w.accept d hd s b).2) := by
+theorem proj_accept (w : W) (d : Option Int) (hd s b : Bool) (he : Option Exc) :
+    (proj h binOk w).accept d hd s b he = (proj h binOk (w.accept d hd s b he).1, (w.accept d hd s b he).2) := by
   unfold Ws.W.accept W.accept
   have e1 : (proj h binOk w).isClosed d = w.isClosed d := rfl
   have e2 : (proj h binOk w).st = w.st := rfl
   have e3 : (proj h binOk w).supHeaders = w.supHeaders := rfl
   rw [e1, e2, e3]
+  split
+  · rfl
   split
   · rfl
   split
@@ -594,6 +596,25 @@ end
 
 /-- the client script is well-formed: every `websocket.receive` event carries exactly one payload -/
 def InboxWf (w : W) : Prop := ∀ e ∈ w.inbox, e.wf = true
+
+/-- an abandoned receive leaves the payload-carrying socket exactly as it was (nothing consumed: the payloads still arrive in order) -/
+theorem recvAbandoned_noop (w : W) (k : RecvKind) : (w.recvAbandoned k).1 = w := by
+  unfold W.recvAbandoned
+  split
+  · rfl
+  · split <;> rfl
+
+theorem proj_recvAbandoned (h : Handlers D) (binOk : Bool) (w : W) (k : RecvKind) :
+    (proj h binOk w).recvAbandoned k = (proj h binOk (w.recvAbandoned k).1, (w.recvAbandoned k).2) := by
+  unfold Ws.W.recvAbandoned W.recvAbandoned
+  rw [proj_requireAccepted]
+  cases w.requireAccepted with
+  | some x => rfl
+  | none =>
+    simp only
+    have e1 : (proj h binOk w).pumpStopped = w.pumpStopped := rfl
+    rw [e1]
+    split <;> rfl
 
 theorem proj_recv (h : Handlers D) (binOk : Bool) (hs : Stock h binOk) (w : W) (k : RecvKind) (hwf : InboxWf w) :
     (proj h binOk w).recv k = (proj h binOk (w.recv h k).1, projOut ((w.recv h k).2.map some)) := by
@@ -674,7 +695,7 @@ theorem proj_op (h : Handlers D) (binOk : Bool) (hs : Stock h binOk) (w : W) (d 
     (hwf : InboxWf w) (hok : OpOk h o) :
     (proj h binOk w).op d (projOp o) = (proj h binOk (w.op h d o).1, projOut (w.op h d o).2) := by
   cases o with
-  | accept hd s b => simp only [projOp, Ws.W.op, W.op, projOut_outOf]; exact proj_accept h binOk w d hd s b
+  | accept hd s b he => simp only [projOp, Ws.W.op, W.op, projOut_outOf]; exact proj_accept h binOk w d hd s b he
   | close a r => simp only [projOp, Ws.W.op, W.op, projOut_outOf]; exact proj_close h binOk w d a r
   | sendText p =>
     simp only [projOp, Ws.W.op, W.op, projOut_outOf]
@@ -693,6 +714,7 @@ theorem proj_op (h : Handlers D) (binOk : Bool) (hs : Stock h binOk) (w : W) (d 
       simp only [projOp, Ws.W.op, W.op, projOut_outOf, W.sendMedia, hser]
       exact proj_sendKind h binOk w d .bytes (.sendBytes s) rfl
   | recv k => simp only [projOp, Ws.W.op, W.op]; exact proj_recv h binOk hs w k hwf
+  | recvAbandoned k => simp only [projOp, Ws.W.op, W.op, projOut_outOf]; exact proj_recvAbandoned h binOk w k
   | raiseHttp s => rfl
   | raiseStatus s => rfl
   | raiseExc => rfl
@@ -718,8 +740,10 @@ theorem send__inbox (w : W) (d : Option Int) (e : Ev) : (w.send_ d e).1.inbox = 
         simp only [Bool.false_eq_true, if_false]
         cases w1.fault <;> exact hi
 
-theorem accept_inbox (w : W) (d : Option Int) (hd s b : Bool) : (w.accept d hd s b).1.inbox = w.inbox := by
+theorem accept_inbox (w : W) (d : Option Int) (hd s b : Bool) (he : Option Exc) : (w.accept d hd s b he).1.inbox = w.inbox := by
   unfold W.accept
+  split
+  · rfl
   split
   · rfl
   split
@@ -774,7 +798,7 @@ theorem recv_inbox_sub (h : Handlers D) (w : W) (k : RecvKind) : ∀ e ∈ (w.re
 
 theorem op_inbox_sub (h : Handlers D) (w : W) (d : Option Int) (o : Op D) : ∀ e ∈ (w.op h d o).1.inbox, e ∈ w.inbox := by
   cases o with
-  | accept hd s b => simp only [W.op, accept_inbox]; exact fun e he => he
+  | accept hd s b hx => simp only [W.op, accept_inbox]; exact fun e he => he
   | close a r => simp only [W.op, close_inbox]; exact fun e he => he
   | sendText p =>
     simp only [W.op, W.sendText]
@@ -798,6 +822,7 @@ theorem op_inbox_sub (h : Handlers D) (w : W) (d : Option Int) (o : Op D) : ∀ 
         · exact fun e he => he
         · rw [send__inbox]; exact fun e he => he
   | recv k => simp only [W.op]; exact recv_inbox_sub h w k
+  | recvAbandoned k => simp only [W.op, recvAbandoned_noop]; exact fun e he => he
   | raiseHttp s => exact fun e he => he
   | raiseStatus s => exact fun e he => he
   | raiseExc => exact fun e he => he
